@@ -36,7 +36,9 @@ func (c15) Runs(tier string) int {
 	}
 	return 40
 }
-func (c15) RequiredProbes(string) []string { return []string{"mutating_route_refused", "read_route_still_works"} }
+func (c15) RequiredProbes(string) []string {
+	return []string{"mutating_route_refused", "read_route_still_works"}
+}
 
 var c15Callers = []string{"root", "admin", "userplus", "user-policy", "user-acl"}
 
